@@ -908,6 +908,43 @@ example :
       proofRewind toyCrypto (newBuilder (termSD.kd s') (termSD.rn s') (fun _ => 1)) c p = .none :=
   ⟨master_ne termSD termSD_seedInj _ _ (by decide), _, _, rfl, rfl, by decide +kernel, by decide +kernel⟩
 
+/-! ## the hasher object carries nothing from one derivation to the next -/
+
+/-- **hasher_state_irrelevant.**  A derivation step's HMAC output does not depend on what the hasher
+object was used for before: `init_sha512` replaces its state.  Whatever states `h`, `h'` two hasher
+objects are in, the same step (same HMAC key, same parts) gives the same 64 bytes. -/
+theorem hasher_state_irrelevant (hmac : Bytes → Bytes → Bytes) (h h' : HState) (key : Bytes)
+    (parts : List Bytes) : (hashStep hmac h key parts).1 = (hashStep hmac h' key parts).1 := rfl
+
+/-- … hence any sequence of derivations threaded through ONE hasher object — siblings m/10, m/11,
+m/10 again from one parent, `new_master` twice, child view keys one after another — yields, step by
+step, what each step yields with a brand-new hasher. -/
+theorem hasher_reuse_equals_fresh (hmac : Bytes → Bytes → Bytes) :
+    ∀ (steps : List (Bytes × List Bytes)) (h : HState),
+      hashSeq hmac h steps = steps.map fun st => (hashStep hmac HState.fresh st.1 st.2).1 := by
+  intro steps
+  induction steps with
+  | nil => intro h; rfl
+  | cons st rest ih =>
+    intro h
+    obtain ⟨key, parts⟩ := st
+    simp only [hashSeq, List.map_cons]
+    rw [ih]
+    rfl
+
+/-- Non-vacuity (a toy "HMAC" that just records key and message): m/10, m/11, m/10 on one hasher
+object that was first used for the master key — third result equals the first, both differ from
+the second. -/
+example :
+    let hmac : Bytes → Bytes → Bytes := fun k d => k ++ [255] ++ d
+    let cc : Bytes := [1, 2, 3]
+    let steps : List (Bytes × List Bytes) :=
+      [([73, 97, 109], [[9, 9]]), (cc, [[7], u32be 10]), (cc, [[7], u32be 11]), (cc, [[7], u32be 10])]
+    let r := hashSeq hmac HState.fresh steps
+    r.length = 4 ∧ r[1]? = r[3]? ∧ r[1]? ≠ r[2]? ∧
+      r[3]? = some (hashStep hmac HState.fresh cc [[7], u32be 10]).1 := by
+  decide
+
 /-! ## determinism across the history of a keychain instance -/
 
 /-- **derive_history_independent.** The answer of a keychain instance to `derive_key(amount, id,
